@@ -62,6 +62,24 @@ def run(ck: Check, repo: Repo) -> None:
             return a.kind == "idx" and a.name == f"attr:self.{key_attr}" and bool(a.sub) and mentions(tb, a.sub[0], pred)
         return f
 
+    _rec_memo = {}
+
+    def is_done_rec(a: Atom) -> bool:
+        """A loop-carried local that holds a done flag: some definition of it is computed from a window element's done field
+        (role by data flow, not by the local's spelling)."""
+        if a.kind != "rec":
+            return False
+        if a.name not in _rec_memo:
+            _rec_memo[a.name] = False  # cut self-reference (flag = flag or done)
+            for d in cfg.live_nodes():
+                if d.kind == "entry" or not any(k == a.name for k, _ in cfg.defs_at(d)):
+                    continue
+                v = cfg.value_of_def(d, a.name)
+                if v is not None and mentions(tb, tb.term(v, d), field_of(is_elem, done_key)):
+                    _rec_memo[a.name] = True
+                    break
+        return _rec_memo[a.name]
+
     loops = [n for n in cfg.live_nodes() if n.kind == "for" and mentions(tb, tb.term(n.ast.iter, n), derives_from_window)]
     if not loops:
         raise AnalysisError("_get_n_step_info: no loop over the window found")
@@ -83,11 +101,11 @@ def run(ck: Check, repo: Repo) -> None:
         for n in (cfg.nodes[i] for i in ids):
             if n.kind == "test" and n.true_succ is not None and isinstance(n.stmt, ast.If):
                 t = tb.term(n.ast, n)
-                if not (mentions(tb, t, field_of(is_elem, done_key)) or mentions(tb, t, lambda a: a.kind == "rec" and a.name.startswith("done"))):
+                if not (mentions(tb, t, field_of(is_elem, done_key)) or mentions(tb, t, is_done_rec)):
                     continue
                 n_done_tests += 1
                 isf = lambda e_, n_=n: not isinstance(e_, (ast.BoolOp, ast.UnaryOp)) and (  # noqa: E731
-                    mentions(tb, tb.term(e_, n_), field_of(is_elem, done_key)) or mentions(tb, tb.term(e_, n_), lambda a: a.kind == "rec" and a.name.startswith("done")))
+                    mentions(tb, tb.term(e_, n_), field_of(is_elem, done_key)) or mentions(tb, tb.term(e_, n_), is_done_rec))
                 reg_t = cfg._region([n.true_succ], n)
                 reg_f = cfg._region([s for s in n.succ if s is not n.true_succ and s.id not in n.exc_succ], n)
                 exits = (L.id not in reg_t and flag_implies(n.ast, True, isf)) or (L.id not in reg_f and flag_implies(n.ast, False, isf))
@@ -141,9 +159,9 @@ def run(ck: Check, repo: Repo) -> None:
     for n in (cfg.nodes[i] for i in body_ids):
         if n.kind == "test" and n.true_succ is not None:
             t = tb.term(n.ast, n)
-            if mentions(tb, t, donek) or mentions(tb, t, lambda a: a.kind == "rec" and a.name.startswith("done")):
+            if mentions(tb, t, donek) or mentions(tb, t, is_done_rec):
                 isf = lambda e_, n_=n: not isinstance(e_, (ast.BoolOp, ast.UnaryOp)) and (  # noqa: E731
-                    mentions(tb, tb.term(e_, n_), donek) or mentions(tb, tb.term(e_, n_), lambda a: a.kind == "rec" and a.name.startswith("done")))
+                    mentions(tb, tb.term(e_, n_), donek) or mentions(tb, tb.term(e_, n_), is_done_rec))
                 reg_t = cfg._region([n.true_succ], n)
                 reg_f = cfg._region([s for s in n.succ if s is not n.true_succ and s.id not in n.exc_succ], n)
                 if (loop.id not in reg_t and flag_implies(n.ast, True, isf)) or (loop.id not in reg_f and flag_implies(n.ast, False, isf)):
@@ -406,7 +424,10 @@ def _alignment(ck: Check, repo: Repo, add: Fn, window: str) -> None:
                 gs = tcfg.guards_at(mn)
                 excl = any((not pol) and "n_step_memory is not None" in ast.unparse(g) or (pol and "n_step_memory is None" in ast.unparse(g)) for g, pol, _ in gs)
                 ck.ob("C10.5", tr, cc, excl, "the raw transition goes to the main memory only when no n-step buffer is used")
-    ns = [c for c in calls_in(tr.node) if call_name(c) == "n_step_sampler.sample"]
+    # roles: the n-step sampler is the local built as Sampler(memory=n_step_memory); every other Sampler(...) local is the 1-step sampler
+    one_samplers, nstep_samplers = _sampler_roles(tr)
+    ns = [c for c in calls_in(tr.node) if isinstance(c.func, ast.Attribute) and c.func.attr == "sample"
+          and isinstance(c.func.value, ast.Name) and c.func.value.id in nstep_samplers]
     ck.floor("C10.5", len(ns), 4, "n_step_sampler.sample calls in train_off_policy", fn=tr)
     for c in ns:
         n = tcfg.node_of(c)
@@ -414,10 +435,29 @@ def _alignment(ck: Check, repo: Repo, add: Fn, window: str) -> None:
         ok = isinstance(a, ast.Subscript) and const_value(a.slice) == "idxs" and isinstance(a.value, ast.Name)
         if ok:
             defs = tcfg.defs_reaching(n, a.value.id)
-            ok = bool(defs) and all(isinstance(tcfg.value_of_def(d, a.value.id), ast.Call) and call_name(tcfg.value_of_def(d, a.value.id)) == "sampler.sample" for d in defs)
+            ok = bool(defs) and all(isinstance(tcfg.value_of_def(d, a.value.id), ast.Call) and _is_one_step_sample(tcfg.value_of_def(d, a.value.id), one_samplers) for d in defs)
             # same iteration: the definition dominates the use
             ok = ok and any(tcfg.dominates(d, n) for d in defs)
         ck.ob("C10.5", tr, c, ok, "the n-step batch is drawn with the indices of the 1-step batch sampled just before")
+
+
+def _sampler_roles(tr: Fn) -> Tuple[Set[str], Set[str]]:
+    """(locals bound to a Sampler over the main memory / dataset, locals bound to Sampler(memory=n_step_memory)).
+    `n_step_memory` is a parameter of train_off_policy; the locals' names are computed, never spelled."""
+    one: Set[str] = set()
+    nstep: Set[str] = set()
+    for n in walk_no_nested(tr.node):
+        if isinstance(n, ast.Assign) and len(n.targets) == 1 and isinstance(n.targets[0], ast.Name) \
+                and isinstance(n.value, ast.Call) and last_attr(n.value) == "Sampler":
+            over_nstep = any(isinstance(x, ast.Name) and x.id == "n_step_memory" for a in list(n.value.args) + [k.value for k in n.value.keywords]
+                             for x in ast.walk(a))
+            (nstep if over_nstep else one).add(n.targets[0].id)
+    return one - nstep, nstep - one
+
+
+def _is_one_step_sample(v: Optional[ast.AST], one_samplers: Set[str]) -> bool:
+    return isinstance(v, ast.Call) and isinstance(v.func, ast.Attribute) and v.func.attr == "sample" \
+        and isinstance(v.func.value, ast.Name) and v.func.value.id in one_samplers
 
 
 _RBF = "agilerl/components/replay_buffer.py"
@@ -452,4 +492,8 @@ VARIANTS += [
      "        if not self.initialized and first_transition[self.done_key].bool().any():\n            return first_transition\n", "fire", "C10.1"),
     ("first-check-or-ok", _RBF, "        if first_transition[self.done_key].bool().any():\n            return first_transition\n",
      "        if self.n_step == 1 or first_transition[self.done_key].bool().any():\n            return first_transition\n", "silent", None),
+]
+VARIANTS += [
+    # the n-step sampler is recognised by what it is built over, not by the local's name
+    ("train-nstep-sampler-over-main-memory", _TOP, "n_step_sampler = Sampler(memory=n_step_memory)", "n_step_sampler = Sampler(memory=memory)", "fire", "C10.5"),
 ]
